@@ -72,6 +72,8 @@ template <class C> struct Runner {
             if (fresh(&u)) push("parse(" + s + ")", u);
             if (fresh(&u) && A::NormalizeSyntax(&u) == URI_SUCCESS) push("normalize(" + s + ")", u);
             if (fresh(&u) && A::MakeOwner(&u) == URI_SUCCESS) push("makeOwner(" + s + ")", u);
+            if (fresh(&u) && A::MakeOwner(&u) == URI_SUCCESS && A::NormalizeSyntax(&u) == URI_SUCCESS) push("normalize(makeOwner(" + s + "))", u);
+            if (fresh(&u) && A::NormalizeSyntaxEx(&u, URI_NORMALIZE_SCHEME | URI_NORMALIZE_PATH) == URI_SUCCESS && A::NormalizeSyntax(&u) == URI_SUCCESS) push("normalize(normalize9(" + s + "))", u);
             for (size_t bi = 0; bi < bases.size(); bi++) {
                 Uri src; if (!fresh(&src)) continue;
                 Uri d; if (A::AddBaseUri(&d, &src, &bu[bi]) == URI_SUCCESS) { push("resolve(" + s + "," + bases[bi] + ")", d);
